@@ -94,10 +94,30 @@ WRITE_OPS = ("write", "write_text", "writelines", "write_bytes")
 READ_OPS = ("readline", "readlines", "read", "read_text", "read_bytes")
 
 
-def run_file_method(P, w, meth):
+def make_file_provider(P, w):
+    """(interpreter, env, provider): the provider as its constructor leaves it (so that whatever it caches about the width is
+    what it would really hold), with the logs of the construction discarded; a symbolic receiver if that is not possible"""
     it = new_interp(P); env = Env()
-    fp = it.new_object(P.cls(f"{SQ}.FileSeqCountProvider").qual, symbolic=True, root="self", path="self")
-    env.heap[(fp.a[0], "_max_bit_width")] = w
+    try:
+        it.quiet += 1
+        try:
+            fp = construct(it, env, f"{SQ}.FileSeqCountProvider", dict(max_bit_width=w, file_name=sym("self.file_name", ty=None)))
+        finally:
+            it.quiet -= 1
+        if env.dead:
+            raise Unsupported("constructor always raises")
+        it.raises.clear(); it.reads.clear(); it.stores.clear(); it.fileops.clear(); it.calls.clear()
+        env.facts = []
+        env.pc = []
+    except Unsupported:
+        it = new_interp(P); env = Env()
+        fp = it.new_object(P.cls(f"{SQ}.FileSeqCountProvider").qual, symbolic=True, root="self", path="self")
+        env.heap[(fp.a[0], "_max_bit_width")] = w
+    return it, env, fp
+
+
+def run_file_method(P, w, meth):
+    it, env, fp = make_file_provider(P, w)
     r = call_method(it, env, fp, meth)
     return it, env, r
 
@@ -328,17 +348,13 @@ def run(ck):
             nxt = read_path(it, env, prov, "count")
             nev += check_successor(ck, f"SeqCountProvider.{entry}", "stored count == (count+1) mod 2^width and the old count is returned", nxt, r, "c", "w", ck.tier)
     # ---------------------------------------------------------------- file provider: successor
-    it = new_interp(P); env = Env()
-    fp = it.new_object(P.cls(f"{SQ}.FileSeqCountProvider").qual, symbolic=True, root="self", path="self")
-    env.heap[(fp.a[0], "_max_bit_width")] = w
+    it, env, fp = make_file_provider(P, w)
     c = sym("c", ty="int")
     r = R.run_guarded(ck, "I-INT", "FileSeqCountProvider._increment_with_rollover", "call", lambda: call_method(it, env, fp, "_increment_with_rollover", [c]))
     if r is not None:
         nev += check_successor(ck, "FileSeqCountProvider._increment_with_rollover", "successor == (count+1) mod 2^width", r, None, "c", "w", ck.tier)
     # ---------------------------------------------------------------- check_count: accepted interval
-    it = new_interp(P); env = Env()
-    fp = it.new_object(P.cls(f"{SQ}.FileSeqCountProvider").qual, symbolic=True, root="self", path="self")
-    env.heap[(fp.a[0], "_max_bit_width")] = w
+    it, env, fp = make_file_provider(P, w)
     line = sym("line", ty="str")
     ret = R.run_guarded(ck, "G-RANGE", "FileSeqCountProvider.check_count", "call", lambda: call_method(it, env, fp, "check_count", [line]))
     if ret is not None:
@@ -349,6 +365,7 @@ def run(ck):
         ck.verdict("G-REFUSE", fn, "content that is not all digits is refused", [] if digit_guard else ["no isdigit() guard dominates the return"], show(digit_guard[0])[:60] if digit_guard else "")
         bad = None
         n = 0
+        foreign = None
         for k in (WIDTHS_THOROUGH if ck.tier == "thorough" else WIDTHS_QUICK):
             M = 2 ** k - 1
             for val in sorted({-2, -1, 0, 1, M - 1, M, M + 1, M + 2, 2 * M + 1}):
@@ -359,12 +376,17 @@ def run(ck):
                             acc = False
                             break
                     except EvalError:
+                        from ..terms import free_syms as _fs
+                        if "v" in _fs(f) and (_fs(f) - {"v", "w", "line"}):
+                            foreign = sorted(_fs(f) - {"v", "w", "line"})
                         continue
                 n += 1
                 if acc != (0 <= val <= M):
                     bad = bad or (k, val, acc)
         nev += n
-        if bad:
+        if foreign:
+            ck.unknown("G-RANGE", fn, "accepted counts are exactly [0, 2^width - 1]", f"the guard compares the count with state the analysis could not tie to the width ({', '.join(foreign)[:80]})")
+        elif bad:
             ck.refuted("G-RANGE", fn, "accepted counts are exactly [0, 2^width - 1]", f"width {bad[0]}: value {bad[1]} is {'accepted' if bad[2] else 'refused'}", witness={"width": bad[0], "value": bad[1]})
         else:
             ck.proved("G-RANGE", fn, "accepted counts are exactly [0, 2^width - 1]", f"{n} (width, value) pairs against the guard facts {[show(f)[:40] for f in facts][-3:]}")
@@ -375,9 +397,7 @@ def run(ck):
         ck.verdict("W-VAL", fn, "returns int(line.rstrip())", [] if ok else [show(ret)[:60]], show(ret)[:50], nontrivial=False)
     # ---------------------------------------------------------------- missing file
     for meth in ("current", "get_and_increment"):
-        it = new_interp(P); env = Env()
-        fp = it.new_object(P.cls(f"{SQ}.FileSeqCountProvider").qual, symbolic=True, root="self", path="self")
-        env.heap[(fp.a[0], "_max_bit_width")] = w
+        it, env, fp = make_file_provider(P, w)
         r = R.run_guarded(ck, "G-REFUSE", f"FileSeqCountProvider.{meth}", "call", lambda: call_method(it, env, fp, meth))
         # raised by the method itself or by a helper it calls
         fnf = [x for x in it.raises if x["kind"] == "explicit" and x["exc"] == "FileNotFoundError" and not x["caught"]]
